@@ -1,23 +1,294 @@
 //! C07: ideal capacity model for resize(), with the known-finding matcher.
+//!
+//! Ideal: with limit n (target of the last completed resize) and in_use = objects
+//! in caller hands + getters past admission, the free permits at a quiescent point
+//! are F* = max(0, n - in_use). D = permits - F* is the deviation; a correct
+//! implementation has D == 0 at every quiescent point. D < 0 is lost capacity.
+//! D may only grow through an event the known-findings file lists, and only by
+//! the amount the known arithmetic of `Pool::resize` predicts:
+//!   KF1  shrink removes free permits only while size > max_size (and a getter
+//!        that was admitted before the shrink gives its permit back when it fails)
+//!   KF2  grow adds the full difference although objects are still out from a shrink
+//!   KF3  shrink racing with a return / take that has released the slots lock but
+//!        not yet added its permit
 
 use deadpool::verif::ManagedSnapshot;
 
-use crate::interp::Interp;
+use crate::interp::{Interp, PKind};
+
+#[derive(Clone, Copy, Debug)]
+pub struct ResizeEv {
+    pub n: usize,
+    pub before: Option<ManagedSnapshot>,
+    pub after: Option<ManagedSnapshot>,
+}
 
 pub struct Model {
     pub configured: usize,
+    /// deviation at the last fully quiescent point
+    pub d_prev: isize,
+    /// the previous step ended at a fully quiescent point
+    pub prev_quiescent: bool,
+    pub resizes: Vec<ResizeEv>,
+    /// admitted getters that gave their permit back while the pool was over its limit
+    pub fail_in_debt: u32,
+    /// returns / takes parked after their unlock while a shrink completed
+    pub raced_release: u32,
+    /// steps since the last fully quiescent point
+    pub steps_in_stretch: u32,
+    pub overlapped: bool,
+    pub shrinks: u32,
+    pub grows: u32,
+    pub shrink_with_out: bool,
+    pub grow_with_waiters: bool,
+    pub shrink_then_grow: bool,
 }
 
 impl Model {
     pub fn new(configured: usize) -> Self {
-        Model { configured }
+        Model {
+            configured,
+            d_prev: 0,
+            prev_quiescent: true,
+            resizes: vec![],
+            fail_in_debt: 0,
+            raced_release: 0,
+            steps_in_stretch: 0,
+            overlapped: false,
+            shrinks: 0,
+            grows: 0,
+            shrink_with_out: false,
+            grow_with_waiters: false,
+            shrink_then_grow: false,
+        }
     }
 }
 
+/// free permits after `resize(n)` as the known code computes them
+fn known_arith(b: &ManagedSnapshot, n: usize) -> (usize, usize, usize) {
+    let (mut p, mut s, mut i) = (b.permits, b.size, b.idle);
+    if n < b.max_size {
+        while s > n {
+            if p > 0 {
+                p -= 1;
+                if i > 0 {
+                    i -= 1;
+                    s -= 1;
+                }
+            } else {
+                break;
+            }
+        }
+    } else if n > b.max_size {
+        p += n - b.max_size;
+    }
+    (p, s, i)
+}
+
 impl<'a> Interp<'a> {
+    fn c07_on(&self) -> bool {
+        self.ctx.prop == "C07"
+    }
+
+    pub(crate) fn c07_in_use(&self) -> usize {
+        let w = self.world.w();
+        let admitted = self
+            .gets
+            .iter()
+            .filter(|g| g.is_inside() && w.admitted.contains(&g.op))
+            .count();
+        self.held.len() + admitted
+    }
+
+    fn c07_known(&mut self, id: &str, detail: String) {
+        if self.ctx.is_known(id) {
+            self.known.push(id.to_string());
+            self.labels.push(format!("known:{}", id));
+        } else {
+            self.flag("resize-capacity", &["C07"], format!("{} ({} is not a listed known finding)", detail, id));
+        }
+    }
+
     pub(crate) fn c07_admitted(&mut self, _g: usize) {}
-    pub(crate) fn c07_idle_surplus(&mut self, _n: usize, _a: ManagedSnapshot) {}
-    pub(crate) fn c07_resized(&mut self, _n: usize, _b: Option<ManagedSnapshot>, _a: Option<ManagedSnapshot>) {}
-    pub(crate) fn c07_quiescent(&mut self, _at: &str, _sn: &ManagedSnapshot, _waiting: usize, _gated: usize) {}
-    pub(crate) fn c07_probe_mismatch(&mut self, _detail: String, _got: usize, _limit: usize) {}
+
+    /// an admitted getter is about to give its permit back (failure, cancellation, panic)
+    pub(crate) fn c07_get_released(&mut self, g: usize) {
+        let op = self.gets[g].op;
+        let admitted = self.world.w().admitted.contains(&op);
+        if admitted {
+            self.c07_release_begins(0);
+        }
+    }
+
+    /// a slot is about to be released (return, take, failing get) by something that
+    /// `c07_in_use` counts `extra` short. If the pool is over its limit by the ideal
+    /// count, the known code may give the permit back instead of absorbing it.
+    pub(crate) fn c07_release_begins(&mut self, extra: usize) {
+        if !self.resize_started || self.close_started {
+            return;
+        }
+        if self.c07_in_use() + extra > self.effective_limit() {
+            self.c07.fail_in_debt += 1;
+        }
+    }
+
+    pub(crate) fn c07_idle_surplus(&mut self, n: usize, a: ManagedSnapshot) {
+        if self.c07.raced_release > 0 || self.c07.d_prev > 0 {
+            return; // judged through D at the quiescent point
+        }
+        self.flag(
+            "shrink-kept-idle-surplus",
+            &["C07"],
+            format!("after resize({}) returned the pool still holds idle objects although size exceeds the limit ({:?})", n, a),
+        );
+    }
+
+    pub(crate) fn c07_resized(&mut self, n: usize, b: Option<ManagedSnapshot>, a: Option<ManagedSnapshot>) {
+        let old = b.map(|b| b.max_size);
+        let before = if self.c07.prev_quiescent && self.parked.is_empty() { b } else { None };
+        self.c07.resizes.push(ResizeEv { n, before, after: a });
+        let prev_limit = old.unwrap_or(self.c07.configured);
+        if n < prev_limit {
+            self.c07.shrinks += 1;
+            if !self.held.is_empty() || self.c07_in_use() > 0 {
+                self.c07.shrink_with_out = true;
+            }
+            // returns / takes that are between their unlock and their add_permits
+            let raced = self
+                .parked
+                .iter()
+                .filter(|p| {
+                    matches!(p.kind, PKind::Return(..) | PKind::Take(_))
+                        && matches!(self.sched.parked_label(p.worker), "ret.keep.unlocked" | "det.unlocked")
+                })
+                .count();
+            self.c07.raced_release += raced as u32;
+        } else if n > prev_limit {
+            self.c07.grows += 1;
+            if self.c07.shrinks > 0 {
+                self.c07.shrink_then_grow = true;
+            }
+            let (waiting, _) = self.classify_pending();
+            if !waiting.is_empty() {
+                self.c07.grow_with_waiters = true;
+            }
+        }
+    }
+
+    /// after every step that was not followed by a fully quiescent point
+    pub(crate) fn c07_not_quiescent(&mut self) {
+        self.c07.prev_quiescent = false;
+        self.c07.steps_in_stretch += 1;
+        self.c07.overlapped = true;
+    }
+
+    pub(crate) fn c07_quiescent(&mut self, at: &str, sn: &ManagedSnapshot, waiting: usize, _gated: usize) {
+        if !self.c07_on() {
+            return;
+        }
+        let n = self.effective_limit();
+        let in_use = self.c07_in_use();
+        let fstar = n.saturating_sub(in_use) as isize;
+        let d = sn.permits as isize - fstar;
+        let dd = d - self.c07.d_prev;
+        let single_inline = self.c07.prev_quiescent && !self.c07.overlapped;
+        let resizes = std::mem::take(&mut self.c07.resizes);
+        let fail = std::mem::replace(&mut self.c07.fail_in_debt, 0);
+        let raced = std::mem::replace(&mut self.c07.raced_release, 0);
+        if waiting > 0 && in_use < n {
+            self.flag(
+                "waiter-stranded-after-resize",
+                &["C07"],
+                format!("{}: {} getters wait although only {} of {} slots are in use ({:?})", at, waiting, in_use, n, sn),
+            );
+        }
+        if d < 0 {
+            self.flag(
+                "capacity-lost-after-resize",
+                &["C07"],
+                format!(
+                    "{}: {} free permits but limit {} with {} in use requires {} ({:?})",
+                    at, sn.permits, n, in_use, fstar, sn
+                ),
+            );
+        } else if single_inline && resizes.len() == 1 && resizes[0].before.is_some() {
+            let r = resizes[0];
+            let b = r.before.unwrap();
+            let (p, s, i) = known_arith(&b, r.n);
+            let matches_known = r.after.map(|a| a.permits == p && a.size == s && a.idle == i).unwrap_or(false);
+            if d != 0 && dd != 0 {
+                if matches_known {
+                    let id = if r.n < b.max_size { "KF1" } else { "KF2" };
+                    self.c07_known(
+                        id,
+                        format!(
+                            "{}: resize({}) from {:?} left {} free permits, the limit with {} in use allows {}",
+                            at, r.n, b, sn.permits, in_use, fstar
+                        ),
+                    );
+                } else {
+                    self.flag(
+                        "resize-capacity",
+                        &["C07"],
+                        format!(
+                            "{}: resize({}) from {:?} left {:?}: {} free permits although limit {} with {} in use allows {} (not the known arithmetic, which gives {} permits)",
+                            at, r.n, b, r.after, sn.permits, n, in_use, fstar, p
+                        ),
+                    );
+                }
+            } else if d != 0 && !matches_known {
+                // carried surplus must evolve as the known arithmetic says
+                self.flag(
+                    "resize-capacity",
+                    &["C07"],
+                    format!(
+                        "{}: resize({}) from {:?} left {:?}; neither the ideal nor the known arithmetic ({} permits)",
+                        at, r.n, b, r.after, p
+                    ),
+                );
+            }
+        } else if dd > 0 {
+            if !resizes.is_empty() {
+                // a resize overlapped other operations: magnitude not judged
+                let id = if resizes.iter().any(|r| r.n < self.c07.configured) { "KF1" } else { "KF2" };
+                let id = if raced > 0 { "KF3" } else { id };
+                self.c07_known(id, format!("{}: capacity surplus {} after a resize that overlapped other operations", at, d));
+            } else if dd as u32 <= fail + raced {
+                let id = if raced > 0 { "KF3" } else { "KF1" };
+                self.c07_known(
+                    id,
+                    format!(
+                        "{}: capacity surplus grew by {} ({} slots were released while the pool was over its limit, {} returns/takes raced with a shrink)",
+                        at, dd, fail, raced
+                    ),
+                );
+            } else {
+                self.flag(
+                    "capacity-surplus-after-resize",
+                    &["C07"],
+                    format!(
+                        "{}: free permits {} exceed what limit {} with {} in use allows ({}) and the surplus grew by {} without a resize ({:?})",
+                        at, sn.permits, n, in_use, fstar, dd, sn
+                    ),
+                );
+            }
+        }
+        self.c07.d_prev = d;
+        self.c07.prev_quiescent = true;
+        self.c07.overlapped = false;
+        self.c07.steps_in_stretch = 0;
+    }
+
+    pub(crate) fn c07_probe_mismatch(&mut self, detail: String, got: usize, limit: usize) {
+        if !self.c07_on() {
+            return;
+        }
+        let d = self.c07.d_prev;
+        if d > 0 && got as isize == limit as isize + d {
+            // the surplus was already attributed to known findings at the quiescent points
+            self.labels.push("probe:known-surplus".into());
+            return;
+        }
+        self.flag("capacity-probe-after-resize", &["C07"], detail);
+    }
 }
